@@ -217,6 +217,11 @@ def json_agreement(prog, rep):
         if isinstance(n, ast.Assign) and norm(n.value) == "self.copy()":
             copyvar = norm(n.targets[0])
     rets = [n for n in walk_own(fi.node) if isinstance(n, ast.Return)]
+    if not asg and len(rets) == 1 and isinstance(rets[0].value, ast.Dict) and rets[0].value.keys and rets[0].value.keys[0] is None and norm(rets[0].value.values[0]) == "self" and all(isinstance(k, ast.Constant) for k in rets[0].value.keys[1:]):
+        # {**self, "timestamp": ..., "duration": ...}: a fresh plain dict, later keys override the copied ones
+        for k, v in zip(rets[0].value.keys[1:], rets[0].value.values[1:]):
+            asg[k.value] = norm(v)
+        base = norm(rets[0].value)
     ok = asg.get("timestamp") in ("self.timestamp.astimezone(timezone.utc).isoformat()",) and asg.get("duration") == "self.duration.total_seconds()" and set(asg) == {"timestamp", "duration"} and len(rets) == 1 and norm(rets[0].value) == base
     rep.check(ok, "JSON", fi.short, "encodings", "timestamp -> UTC isoformat, duration -> total_seconds(), id/data copied", f"to_json_dict emits {asg}: timestamp must be the UTC ISO-8601 string and duration the number of seconds, other keys copied unchanged", fi.loc())
     # schema
